@@ -444,6 +444,10 @@ def cases_stream(rng, n):
                             hdrb = hdrb[:-1]
                         vals.update(filesync_info=fi2, expected_ids=rng.choice([[constants.DATA, constants.DONE], [constants.STAT], [constants.DENT, constants.DONE], [constants.OKAY]]),
                                     eff0=None, eff1=hdrb, eff2=bytearray(rng.choice([b"", b"nope", b"\xff\xfe"])))
+                    if base.startswith("filesync_read_until"):
+                        rid = rng.choice([constants.DATA, constants.DONE, constants.DENT, constants.STAT])
+                        vals.update(expected_ids=rng.choice([[constants.DATA], [constants.DENT], []]), finish_ids=rng.choice([[constants.DONE], [constants.DONE, constants.STAT], []]),
+                                    cmd_id=None, header=None, data=None, eff0=(rid, (1, 2), rng.choice([None, bytearray(b"xy")])), eff1=None)
                     if base.startswith("filesync_send"):
                         fi3 = _FileSyncTransactionInfo(rng.choice([constants.FILESYNC_PUSH_FORMAT, constants.FILESYNC_LIST_FORMAT]), rng.choice([64, 40]))
                         fi3.send_buffer = bytearray(rng.randbytes(fi3._maxdata))
